@@ -1,4 +1,5 @@
 from __future__ import annotations
+import re
 from collections import defaultdict
 
 from functools import cached_property
@@ -91,6 +92,52 @@ def gather_atoms(
             symbols[st.name] = st.symbol
             lookup[st.name] = st
     return AllAtoms(symbol_names, symbol_values, symbols, lookup)
+
+
+# Names that the generated code (in any backend) uses for itself: the arguments and local
+# variables of the generated functions, the numerical libraries and the macros / functions
+# of math.h that the C printer emits. A model quantity with one of these names would silently
+# capture it (or be captured by it) in the flat namespace of a generated function.
+RESERVED_NAMES = frozenset(
+    {
+        "t",
+        "time",
+        "dt",
+        "states",
+        "parameters",
+        "values",
+        "shape",
+        "missing_variables",
+        "numpy",
+        "jax",
+        "math",
+        "len",
+        "M_PI",
+        "M_E",
+        "NULL",
+        "fabs",
+        "fmod",
+        "pow",
+        "ceil",
+        "strcmp",
+    }
+)
+RESERVED_PATTERNS = (
+    re.compile(r"^_values_\d+$"),  # return values of the jax backend
+    re.compile(r"^d\w+_dt_linearized$"),  # linearization of a rate in the Rush-Larsen schemes
+)
+
+
+def check_reserved_names(names: Iterable[str]) -> None:
+    """Raise :class:`exceptions.ReservedNameError` if a model quantity has a name that the
+    generated code uses for itself"""
+    reserved = {
+        name
+        for name in names
+        if name in RESERVED_NAMES or any(p.match(name) for p in RESERVED_PATTERNS)
+    }
+    if reserved:
+        raise exceptions.ReservedNameError(sorted(reserved))
 
 
 def find_duplicates(x: Iterable[T]) -> set[T]:
@@ -231,7 +278,8 @@ def make_ode(
     t = sp.Symbol("t")
     # components = add_temporal_state(components, t)
     check_components(components=components)
-    _, symbol_values, symbols, lookup = gather_atoms(components=components)
+    symbol_names, symbol_values, symbols, lookup = gather_atoms(components=components)
+    check_reserved_names(symbol_names)
     symbols["time"] = t
     symbols["t"] = t
 
